@@ -409,7 +409,7 @@ func (y *LeafList) setParent(p Meta) {
 
 type Any struct {
 	ident          string
-	dtype          *Type
+	anyType        *Type // not "dtype": the accessors are written by hand below, not generated
 	desc           string
 	ref            string
 	parent         Meta
@@ -444,7 +444,7 @@ func (y *Any) setType(*Type) {
 }
 
 func (y *Any) Type() *Type {
-	return y.dtype
+	return y.anyType
 }
 
 func (y *Any) addDefault(string) {
